@@ -25,7 +25,20 @@ Import ListNotations.
 Inductive kw := KwIf | KwThen | KwElsif | KwElse | KwEndIf | KwFor | KwTo | KwBy | KwDo | KwEndFor
   | KwWhile | KwEndWhile | KwRepeat | KwUntil | KwEndRepeat | KwExit | KwReturn | KwEndPou
   | KwCase | KwOf | KwEndCase.
-Inductive ckind := CkInt | CkTrue | CkFalse | CkStr | CkWStr.
+Inductive ckind := CkInt | CkTrue | CkFalse | CkStr | CkWStr
+  | CkHex | CkOct | CkBin          (* 16#.. 8#.. 2#..: integer constants of one token *)
+  | CkFixed | CkFloat.             (* 1.5  1.5E3: real constants of one token *)
+(* the elementary type keywords other than BOOL, STRING and WSTRING, and the families that can prefix a numeric constant *)
+Inductive tykw := TSint | TInt | TDint | TLint | TUsint | TUint | TUdint | TUlint | TReal | TLreal
+  | TTime | TDate | TTod | TDt | TByte | TWord | TDword | TLword.
+Inductive tyfam := TfInt | TfReal | TfBits | TfOther.
+Definition fam (k : tykw) : tyfam :=
+  match k with
+  | TSint | TInt | TDint | TLint | TUsint | TUint | TUdint | TUlint => TfInt
+  | TReal | TLreal => TfReal
+  | TByte | TWord | TDword | TLword => TfBits
+  | TTime | TDate | TTod | TDt => TfOther
+  end.
 Inductive dkw := DkVar | DkVarInput | DkVarOutput | DkVarInOut | DkVarExternal | DkEndVar | DkConstant | DkRetain | DkNonRetain
   | DkREdge | DkFEdge | DkType | DkEndType | DkArray.
 Inductive tcl :=
@@ -37,7 +50,7 @@ Inductive tcl :=
   | CMinus | CNot
   | CKw (k : kw)
   | CBoolT | CHash              (* BOOL and '#': only in BOOL#TRUE / BOOL#FALSE *)
-  | CTyKw                       (* an elementary type keyword other than BOOL, STRING and WSTRING *)
+  | CTyKw (k : tykw)            (* an elementary type keyword other than BOOL, STRING and WSTRING *)
   | CDk (k : dkw)               (* the keywords of variable declaration blocks *)
   | CSel | COther.
 
@@ -55,6 +68,10 @@ Inductive sleaf :=
   | LfInt (neg : bool) (value : N)          (* IntegerLiteral: SignedInteger { value, is_neg } *)
   | LfBool (b : bool)
   | LfStr (chars : text)                    (* CharacterStringLiteral: the characters between the quotes *)
+  | LfReal (ty : option tykw) (sign : option bool) (lit : text)
+                                            (* RealLiteral: type prefix, sign as written (Some true: '-'), the text of the number *)
+  | LfTInt (ty : tykw) (neg : bool) (value : N)   (* IntegerLiteral with data_type *)
+  | LfBits (ty : tykw) (value : N)          (* BitStringLiteral with data_type *)
   | LfName (n : text).                      (* ExprKind::LateBound *)
 
 (* the selectors after a variable's name: .field and [e1, e2, ..] *)
@@ -117,8 +134,25 @@ Section Parser.
     match cl t with CMinus => Some UNeg | CNot => Some UNot | _ => None end.
   Definition leaf_of (k : ckind) (t : tk) : sleaf :=
     match k with
-    | CkInt => LfInt false (num t) | CkTrue => LfBool true | CkFalse => LfBool false
+    | CkInt | CkHex | CkOct | CkBin => LfInt false (num t) | CkTrue => LfBool true | CkFalse => LfBool false
     | CkStr | CkWStr => LfStr (removelast (tl (txt t)))
+    | CkFixed | CkFloat => LfReal None None (txt t)
+    end.
+  Definition is_real_k (k : ckind) : bool := match k with CkFixed | CkFloat => true | _ => false end.
+  Definition is_based_k (k : ckind) : bool := match k with CkHex | CkOct | CkBin => true | _ => false end.
+  Definition is_real_c (c : tcl) : bool := match c with CConst k => is_real_k k | _ => false end.
+  Definition sign_of (c : tcl) : option bool := match c with COp BAdd => Some false | CMinus => Some true | _ => None end.
+  (* the number of a typed constant TYPE '#' sign? number: real_literal (REAL, LREAL: sign? Fixed / Float), integer_literal
+     (the integer types: binary / octal / hex without sign, or sign? Digits), bit_string_literal (BYTE .. LWORD: binary /
+     octal / hex / Digits, no sign) *)
+  Definition typed_leaf (k : tykw) (sg : option bool) (v : tk) : option sleaf :=
+    match fam k, cl v with
+    | TfReal, CConst c => if is_real_k c then Some (LfReal (Some k) sg (txt v)) else None
+    | TfInt, CConst CkInt => Some (LfTInt k (match sg with Some b => b | None => false end) (num v))
+    | TfInt, CConst c => match sg with None => if is_based_k c then Some (LfTInt k false (num v)) else None | Some _ => None end
+    | TfBits, CConst CkInt => match sg with None => Some (LfBits k (num v)) | Some _ => None end
+    | TfBits, CConst c => match sg with None => if is_based_k c then Some (LfBits k (num v)) else None | Some _ => None end
+    | _, _ => None
     end.
 
   (* tok(k) at the next significant token *)
@@ -291,15 +325,38 @@ Section Parser.
     | t :: r =>
         match cl t with
         | CConst k => Ok (XAtom (leaf_of k t), r)
-        | COp BAdd =>      (* signed_integer: '+' Digits, adjacent *)
+        | COp BAdd =>      (* real_literal: '+' Fixed / Float; signed_integer: '+' Digits; adjacent *)
             match r with
-            | d :: r' => match cl d with CConst CkInt => Ok (XAtom (LfInt false (num d)), r') | _ => Fail end
+            | d :: r' => match cl d with
+                         | CConst CkInt => Ok (XAtom (LfInt false (num d)), r')
+                         | c => if is_real_c c then Ok (XAtom (LfReal None (Some false) (txt d)), r') else Fail
+                         end
             | [] => Fail
             end
-        | CMinus =>        (* signed_integer: '-' Digits, adjacent *)
+        | CMinus =>        (* real_literal: '-' Fixed / Float; signed_integer: '-' Digits; adjacent *)
             match r with
-            | d :: r' => match cl d with CConst CkInt => Ok (XAtom (LfInt true (num d)), r') | _ => Fail end
+            | d :: r' => match cl d with
+                         | CConst CkInt => Ok (XAtom (LfInt true (num d)), r')
+                         | c => if is_real_c c then Ok (XAtom (LfReal None (Some true) (txt d)), r') else Fail
+                         end
             | [] => Fail
+            end
+        | CTyKw k =>       (* TYPE '#' sign? number, adjacent *)
+            match r with
+            | h :: v :: r' =>
+                match cl h with
+                | CHash =>
+                    match sign_of (cl v) with
+                    | Some b =>
+                        match r' with
+                        | d :: r'' => match typed_leaf k (Some b) d with Some l => Ok (XAtom l, r'') | None => Fail end
+                        | [] => Fail
+                        end
+                    | None => match typed_leaf k None v with Some l => Ok (XAtom l, r') | None => Fail end
+                    end
+                | _ => Fail
+                end
+            | _ => Fail
             end
         | CBoolT =>        (* boolean_literal: BOOL '#' TRUE / FALSE, adjacent *)
             match r with
@@ -787,7 +844,8 @@ Section Parser.
     | Panic => Panic | OutOfFuel => OutOfFuel
     end.
 
-  (* '#' only right after BOOL (every other use of '#' is a typed or time literal the model does not read) *)
+  (* '#' only right after BOOL or the keyword of an integer, real or bit string type (every other use of '#' is a time or date
+     literal, which the model does not read) *)
   Fixpoint in_scope_from (after_bool : bool) (ts : list tk) : bool :=
     match ts with
     | [] => true
@@ -796,6 +854,7 @@ Section Parser.
         | CSel | COther => false
         | CHash => after_bool && in_scope_from false r
         | CBoolT => in_scope_from true r
+        | CTyKw k => in_scope_from (match fam k with TfOther => false | _ => true end) r
         | _ => in_scope_from false r
         end
     end.
